@@ -544,6 +544,18 @@ func mcRdpValid(r *vRng, kind int, cf *mcRdpCfg) *mcRdp {
 			m.ip = [4]byte{byte(1 + r.Intn(254)), byte(r.U64()), byte(r.U64()), byte(1 + r.Intn(254))}
 		}
 		m.port = []uint16{3389, 3390, 3391, 443, uint16(1024 + r.Intn(60000))}[r.Intn(5)]
+		// steer towards what the configuration is looking for, so that both outcomes of each filter occur
+		if cf != nil && len(cf.ports) > 0 && r.Intn(2) == 0 {
+			m.port = cf.ports[r.Intn(len(cf.ports))]
+		}
+		if cf != nil && len(cf.pfx) > 0 && r.Intn(2) == 0 {
+			if p := cf.pfx[r.Intn(len(cf.pfx))]; p.Addr().Is4() {
+				m.ip = p.Addr().As4()
+				if p.Bits() <= 24 {
+					m.ip[3] = byte(1 + r.Intn(254))
+				}
+			}
+		}
 		m.routing = mcRdpToken(mcRdpTokenCookie(m.ip, m.port))
 	case rdTokenEmpty:
 		m.routing = mcRdpToken([]byte{})
@@ -639,6 +651,9 @@ func mcRunRdpC14(e *mcEnv) {
 				}
 				if len(m.routing)+len(m.neg)+len(m.corr) == 0 {
 					exp = mcUnknown // header-only requests are rejected by a documented choice
+				}
+				if kind == rdTokenEmpty && exp == mcYes {
+					exp = mcUnknown // a routing token without a cookie has no CR LF: the wire definition does not say how it is delimited
 				}
 				mcRef(e, cf.mt, m.encode(), exp, "valid:"+strconv.Itoa(kind), "well-formed connection request", "", "")
 				if !(noFilter || ipOnly && kind == rdToken) || k >= 4 {
